@@ -37,7 +37,7 @@ from ..engine.normalize import positional
 from ..engine.report import AnalysisError, Run
 from ..engine.resolver import Program, contains_await
 from ..engine.util import find_calls, method_call, nodes_with_call, u
-from ._c06_util import (Flow, Org, Tri, cmp_eval, indent_of, lifted, pruned, result_sites, seg, spliced, src_patch, stmt_patch,
+from ._c06_util import (Flow, Org, Tri, cmp_eval, first_run_sync_name, indent_of, lifted, names_eq, pruned, result_sites, seg, spliced, src_patch, stmt_patch,
                         transitive_helpers, truth_atom, unawait)
 from .c13 import check_steps, engine_drops_round, step_classes
 from .c19 import check_sync as fallback_sync
@@ -60,6 +60,13 @@ def _asyncio_name(fl: Flow, e: ast.AST, name: str) -> bool:
 
 def _is_fetch_call(c: ast.Call) -> bool:
     return isinstance(c.func, ast.Attribute) and c.func.attr in FETCH_ATTRS
+
+
+def bind_sync(prog: Program) -> str:
+    """Bind the first-run synchronisation by role (the name is only a hint) for this run."""
+    global SYNC
+    SYNC = first_run_sync_name(prog)
+    return SYNC
 
 
 def _is_sync_call(c: ast.Call) -> bool:
@@ -464,6 +471,7 @@ def check_ts(run: Run, prog: Program, rnd: Round) -> None:
 
 # ---------------------------------------------------------------------------------------------
 def check_sync(run: Run, prog: Program, rule: str = "C06.SYNC") -> None:
+    bind_sync(prog)
     raw = prog.func(f"{FE}.{SYNC}")
     run.analysed(raw.qual)
     fn = spliced(prog, raw)
@@ -513,6 +521,59 @@ def check_sync(run: Run, prog: Program, rule: str = "C06.SYNC") -> None:
             return not e.elts
         return isinstance(e, ast.Call) and u(e.func) in kinds and not e.args and not e.keywords
 
+    def same_ts(a: ast.AST, an: int, b: ast.AST, bn: int) -> bool:
+        """Both denote `<the same sample>.timestamp`."""
+        oa, ob = fl.origin(a, an), fl.origin(b, bn)
+        if not oa or not ob or not all(o.kind == "expr" and isinstance(o.node, ast.Attribute) and o.node.attr == "timestamp" for o in oa + ob):
+            return False
+        va = [q for o in oa for q in fl.origin(o.node.value, o.nid)]  # type: ignore[union-attr]
+        vb = [q for o in ob for q in fl.origin(o.node.value, o.nid)]  # type: ignore[union-attr]
+        return names_eq(va, vb)
+
+    def created_when_absent(ins: int, key: ast.AST, g: ast.AST, lp: int) -> bool:
+        """`G[K].append(..)` form: an empty list is stored under K exactly when K is not yet a key
+        (`if K not in G: G[K] = []`, `if G.get(K) is None: ...`), before the append."""
+        def is_g(e: ast.AST, nid: int) -> bool:
+            o = fl.origin(e, nid)
+            return bool(o) and all(x.kind == "expr" and x.node is g for x in o)
+
+        stores = []
+        for n in cfg.nodes:
+            a = n.ast
+            if n.id in fl.live and n.kind == "stmt" and isinstance(a, ast.Assign) and len(a.targets) == 1 \
+                    and isinstance(a.targets[0], ast.Subscript) and is_g(a.targets[0].value, n.id):
+                if is_empty(a.value, ("list",)) and same_ts(a.targets[0].slice, n.id, key, ins):
+                    stores.append(n.id)
+                else:
+                    return False  # some other write into the grouping table
+        if len(stores) != 1:
+            return False
+
+        def scn(present: bool) -> Callable[[ast.AST, int], Tri]:
+            def atom(e: ast.AST, nid: int) -> Tri:
+                if isinstance(e, ast.Compare) and len(e.ops) == 1 and isinstance(e.ops[0], (ast.In, ast.NotIn)) \
+                        and is_g(e.comparators[0].func.value if isinstance(e.comparators[0], ast.Call) and isinstance(
+                            e.comparators[0].func, ast.Attribute) and e.comparators[0].func.attr == "keys" else e.comparators[0], nid) \
+                        and same_ts(e.left, nid, key, ins):
+                    return present if isinstance(e.ops[0], ast.In) else not present
+                ta = truth_atom(e)
+                if ta is not None:
+                    c = ta[0]
+                    o = fl.origin1(c, nid)
+                    c = o.node if o is not None and o.kind == "expr" and o.node is not None else c
+                    if isinstance(c, ast.Call) and isinstance(c.func, ast.Attribute) and c.func.attr == "get" and len(c.args) == 1 \
+                            and is_g(c.func.value, nid) and same_ts(c.args[0], nid, key, ins):
+                        return (not present) if ta[1] else present
+                return None
+            return atom
+
+        first = [m for m, lab in cfg.succ[lp] if lab == "iter"]
+        absent = pruned(cfg, lifted(fl, scn(False)))
+        present = pruned(cfg, lifted(fl, scn(True)))
+        return bool(first) and cfg.path(first[0], [ins], avoid=stores, edge_ok=absent) is None \
+            and (first[0] in stores or cfg.path(first[0], stores, edge_ok=absent) is not None) \
+            and first[0] not in stores and cfg.path(first[0], stores, edge_ok=present) is None
+
     # ---- S1: grouping by first timestamp
     groups: list[tuple[int, ast.AST, int]] = []  # (insertion node, dict-creating expression, loop node)
     for nid, c in fl.calls(lambda c: isinstance(c.func, ast.Attribute) and c.func.attr == "append" and len(c.args) == 1):
@@ -521,6 +582,9 @@ def check_sync(run: Run, prog: Program, rule: str = "C06.SYNC") -> None:
         if isinstance(tgt, ast.Call) and isinstance(tgt.func, ast.Attribute) and tgt.func.attr == "setdefault" \
                 and len(tgt.args) == 2 and is_empty(tgt.args[1], ("list",)):
             key, holder = tgt.args[0], tgt.func.value
+        indexed = False
+        if key is None and isinstance(tgt, ast.Subscript) and isinstance(tgt.ctx, ast.Load):
+            key, holder, indexed = tgt.slice, tgt.value, True  # `G[K].append(N)`: the list must have been created, see below
         if key is None or holder is None:
             continue
         ko = fl.origin(key, nid)
@@ -535,7 +599,7 @@ def check_sync(run: Run, prog: Program, rule: str = "C06.SYNC") -> None:
         okn, l2 = task_call(c.args[0], nid, "get_name")
         ho = fl.origin1(holder, nid)
         if good and okn and l2 == lp and lp is not None and ho is not None and ho.kind == "expr" and ho.node is not None \
-                and is_empty(ho.node, ("dict",)):
+                and is_empty(ho.node, ("dict",)) and (not indexed or created_when_absent(nid, key, ho.node, lp)):
             groups.append((nid, ho.node, lp))
     ok = len(groups) == 1
     G: ast.AST | None = None
@@ -792,6 +856,7 @@ def build_controls(prog: Program) -> list[tuple[str, str, str, str, str]]:
     """Seeded in-memory controls, cut out of the live source at structurally located anchors (so they
     survive renamed locals, changed log texts, introduced locals): each breaks one obligation."""
     out: list[tuple[str, str, str, str, str]] = []
+    bind_sync(prog)
 
     def add(name: str, module: str, patch: tuple[str, str] | None, rule: str) -> None:
         if patch is not None:
@@ -904,6 +969,7 @@ def build_controls(prog: Program) -> list[tuple[str, str, str, str, str]]:
 
 
 def run_rules(run: Run, prog: Program) -> None:
+    bind_sync(prog)
     rnd = Round(prog)
     check_all(run, prog, rnd)
     check_one(run, prog)
